@@ -249,3 +249,20 @@ Theorem record_before_payload_refuted : exists ops i, wf_cops ops /\
    aq (spc c i) = [(10, 11)] /\ exists bytes q, fst (cstep c (CSend i 2010 0 1200 false)) = CSent (SFrame bytes q)).
 Proof. exact record_before_payload_refuted_l. Qed.
 Print Assumptions record_before_payload_refuted.
+
+(* the atomic op of model/AckQueue.v is the composed packet: for a payload that touches the acknowledgement state only by
+   acknowledging ACK frames that were written (fx_plain, known_handler: the premise of [reach]), the state of the packet's
+   space after recv_packet is exactly AckQueue.recv with dels = the acknowledgements in payload order and elic / ok as the
+   frame loop computes them; the other spaces only learn about a close.  (So the theorems above stated on AckQueue.step
+   speak about the same per-space transitions as the composed model.) *)
+Theorem recv_packet_refines : forall c i pn fs t d, fx_plain fs = true ->
+  (forall h, In h (fx_acks fs) -> known_handler (spc c i) h = true) -> closing (spc c i) = false ->
+  let elic := fx_elic fs false in
+  let ok := negb (fx_raised fs false) in
+  match recv (spc c i) pn elic t d (fx_acks fs) ok with
+  | Ok s' => exists c', recv_packet c i (VPlain pn false) fs t d = Ok c' /\ spc c' i = s' /\
+               forall j, j <> i -> spc c' j = if ok then spc c j else set_closing (spc c j)
+  | Err k => recv_packet c i (VPlain pn false) fs t d = Err k
+  end.
+Proof. exact recv_packet_refines_l. Qed.
+Print Assumptions recv_packet_refines.
